@@ -32,9 +32,9 @@ LEVEL_NOTE = "Trusted: Lean kernel + standard axioms; zarr/xarray behaviour obse
 TECHNIQUE = "Lean 4 theorems over the schema-generation model + decide over the regenerated dtype table + structural walk of real stores"
 
 
-def biased_spec(rng, thorough):
+def biased_spec(rng, thorough, ncontig=None):
     spec = vcfgen.rich_file(rng, nrec=rng.choice([2, 5, 12, 30]), nsamples=rng.choice([0, 1, 3, 5]), ploidies=(2,),
-                            max_alt=rng.choice([2, 3, 4]))
+                            max_alt=rng.choice([2, 3, 4]), ncontig=ncontig)
     # bias: drop R/A/G valued fields from the records with the most alleles
     if spec["records"]:
         widest = max(len(r["alt"]) for r in spec["records"])
@@ -121,6 +121,56 @@ def check_one(ctx, spec, work, tag, force=None):
     shutil.rmtree(icf, ignore_errors=True)
 
 
+def partial_schema_cases(ctx, work):
+    """a user schema that keeps only part of an array group (e.g. drops call_genotype but keeps its mask): the conversion may
+    refuse, but whatever it publishes as a finished store must be self-consistent"""
+    import io
+    import json
+    from bio2zarr import vcf2zarr
+    rng = ctx.rng
+    for _try in range(10):
+        spec = vcfgen.rich_file(rng, nrec=rng.choice([5, 9]), nsamples=3, ploidies=(2,))
+        if len(spec["records"]) >= 3:
+            break
+    else:
+        return
+    path = vcfgen.materialise(spec, pathlib.Path(work) / "ps", "vcf.gz+tbi")
+    icf = pathlib.Path(work) / "ps.icf"
+    convlib.explode(icf, [path])
+    buf = io.StringIO()
+    vcf2zarr.mkschema(icf, buf, variants_chunk_size=2, samples_chunk_size=2)
+    schema = json.loads(buf.getvalue())
+    groups = [["call_genotype"], ["call_genotype_mask"], ["call_genotype_phased"], ["call_genotype", "call_genotype_phased"],
+              ["variant_id"], ["variant_id_mask"], ["variant_position"], ["variant_contig", "variant_length"]]
+    for k, drop in enumerate(groups if ctx.thorough else [groups[0]] + rng.sample(groups[1:], 3)):
+        ed = dict(schema, fields=[f for f in schema["fields"] if f["name"] not in drop])
+        sp = pathlib.Path(work) / f"ps{k}.json"
+        sp.write_text(json.dumps(ed))
+        out = pathlib.Path(work) / f"ps{k}.zarr"
+        shutil.rmtree(out, ignore_errors=True)
+        inp = {"vcf_spec": spec, "arrays_removed_from_schema": drop}
+        ctx.case(("partial schema", tuple(drop)), True)
+        for mode in ("oneshot", "distributed"):
+            shutil.rmtree(out, ignore_errors=True)
+            try:
+                if mode == "oneshot":
+                    vcf2zarr.encode(icf, out, schema_path=sp, worker_processes=0)
+                else:
+                    s_ = vcf2zarr.encode_init(icf, out, target_num_partitions=2, schema_path=sp)
+                    for j in range(s_.num_partitions):
+                        vcf2zarr.encode_partition(out, j)
+                    vcf2zarr.encode_finalise(out)
+                ctx.count("partial_schema_accepted")
+            except Exception:  # noqa: BLE001
+                ctx.count("partial_schema_refused")
+            if (out / ".zmetadata").exists():
+                for what, detail in convlib.structure_problems(out):
+                    ctx.violate(f"schema without {drop} ({mode}): the finished store is not self-consistent: {what}: {str(detail)[:200]}",
+                                inp, "refused, or a consistent store", detail, problem=what)
+        shutil.rmtree(out, ignore_errors=True)
+    shutil.rmtree(icf, ignore_errors=True)
+
+
 def run(ctx):
     work = common.scratch_dir("c02-")
     try:
@@ -137,6 +187,7 @@ def run(ctx):
             if len(spec["records"]) >= 11:
                 check_one(ctx, spec, work, f"many{'dot' if sep == '.' else 'slash'}", force={"vcs": 1, "scs": 1, "sep": sep})
                 ctx.count("many_chunks_cases")
+        partial_schema_cases(ctx, work)
         schema_correspondence(ctx, work)
     finally:
         shutil.rmtree(work, ignore_errors=True)
@@ -150,7 +201,7 @@ def schema_correspondence(ctx, work):
     import json
     from bio2zarr import vcf2zarr
     for k in range(20 if ctx.thorough else 6):
-        spec = biased_spec(ctx.rng, ctx.thorough)
+        spec = biased_spec(ctx.rng, ctx.thorough, ncontig=ctx.rng.choice([129, 300, 40000]) if k == 0 else None)
         if not spec["records"]:
             continue
         path = vcfgen.materialise(spec, pathlib.Path(work) / f"m{k}", "vcf.gz+tbi")
